@@ -13,7 +13,15 @@ coq/Props/Properties_ORACLE.v) for the exact input equation:
      and makes no such claim.)
 Undecided answers never raise an alarm.  The Coq part (coq/Skel, Props/Properties_C01.v) proves that the
 bookkeeping steps of the solver keep "disc contains a root" invariant as long as every freshly computed radius
-satisfies the Newton contract, the count identity under deflation, and exactly-one-root for pairwise disjoint discs."""
+satisfies the Newton contract, the count identity under deflation, and exactly-one-root for pairwise disjoint discs.
+
+Two more families:  REUSE (harness/c01_reuse.c): sequences of 2-3 solves on ONE context, every segment judged as above.
+EVENT TRACES (harness/c01_trace.c, bin/trc = extracted coq/Skel/TraceDefs.v): ~30 solves are repeated with the six Newton
+entry points wrapped at link time; the disc of every root at every Newton entry / exit and the returned disc form a
+per-root trace; the extracted acceptor classifies every transition (contains the previous disc = move-and-enlarge, else
+FRESH) and every fresh radius is an obligation validated by the oracle (C01_trace_sound: obligations hold => every disc
+along the trace holds); every improve_root step must be move-and-enlarge of its Newton disc (extracted improve_step_ok,
+up to the rounding of the DPE additions)."""
 import os, json, collections
 from fractions import Fraction as Fr
 import vf, solve as S, polygen as G, e2e
@@ -284,10 +292,15 @@ def select_trace_jobs(ctx, co, count):
     seen = collections.Counter(); out = []
     pool = [(c, o) for c, o in co if c.get("coeffs") and 1 <= c["degree"] <= 8 and c["cls"] not in ("dyadic-float",)]
     ctx.rng.shuffle(pool)
+    # the two inputs with a known defect are always traced (their event-trace view is listed in known/C01.json)
+    for nm, alg, goal in (("lead0", "secular", "i"), ("tinyroot_regress", "classic", "a")):
+        for c, o in pool:
+            if c["name"] == nm and alg_of(o) == alg and o[o.index("-G") + 1] == goal and "-t" not in o:
+                out.append((c, o)); break
     for c, o in pool:
         key = (alg_of(o), "a" if "a" in o[o.index("-G") + 1:o.index("-G") + 2] else "i", "-b" in o, "-t" in o, "-r" in o, "-c" in o,
                c["cls"] in ("secular", "chebyshev") and c["cls"])
-        if seen[key] >= max(1, count // 10): continue
+        if seen[key] >= max(1, count // 10) or (c, o) in out: continue
         seen[key] += 1; out.append((c, o))
         if len(out) >= count: break
     return out
@@ -318,7 +331,25 @@ def run_trace_jobs(ctx, binary, jobs, env, timeout=120):
     return [{"case": c, "opts": o, "res": r, "poly": None, "oracle": None, "why": ""} for (c, o), r in zip(jobs, res)]
 
 
-def trace_tie(ctx, tbinary, jobs, env, stats, cap):
+def obligation_bounds(orc, discs):
+    """(lo, hi) per disc, valid bounds on the number of roots in the CLOSED disc, cheapest question first: a short inner
+    disc that holds a root settles 'contains a root'; only the others are asked with a short outer disc (hi == 0 settles
+    'contains no root') and then with their full-length numbers."""
+    n = len(discs); lo = [0] * n; hi = [None] * n
+    inner = [e2e.inner_disc(d) for d in discs]
+    ii = [i for i in range(n) if inner[i] is not None]
+    if ii:
+        for i, (l, h) in zip(ii, orc.count([inner[i] for i in ii])): lo[i] = l
+    rest = [i for i in range(n) if lo[i] == 0]
+    if rest:
+        for i, (l, h) in zip(rest, orc.count([e2e.outer_disc(discs[i]) for i in rest])): hi[i] = h
+    rest = [i for i in rest if hi[i] != 0 and max(_bits(x) for x in discs[i]) <= 40000]
+    if rest:
+        for i, (l, h) in zip(rest, orc.count([discs[i] for i in rest])): lo[i] = max(lo[i], l); hi[i] = h if hi[i] is None else min(hi[i], h)
+    return [(lo[i], hi[i]) for i in range(n)]
+
+
+def trace_tie(ctx, tbinary, jobs, env, stats, cap, shared, tried=()):
     """Run the hooked harness on `jobs`, classify every transition of every root with the extracted acceptor (bin/trc),
     validate every fresh-radius obligation with the certified oracle, and require every improve_root step to be
     move-and-enlarge of its Newton disc.  Returns (evaluations, samples)."""
@@ -341,6 +372,7 @@ def trace_tie(ctx, tbinary, jobs, env, stats, cap):
             traces.append(tr)
         rec["traces"] = traces
         todo.append(rec)
+    ctx.log("trace: %d hooked solves done" % len(todo))
     # ---- the extracted acceptor: one T line per root
     lines = []; owner = []
     for rec in todo:
@@ -353,6 +385,7 @@ def trace_tie(ctx, tbinary, jobs, env, stats, cap):
         if len(t) != 2 or len(t[0]) != len(tr) or sum(1 for ch in t[0] if ch in "1F") != int(t[1]):
             raise vf.InfraError("bin/trc answered %r for a trace of %d observations" % (out[:80], len(tr)))
         for o, ch in zip(tr, t[0]): o["cls"] = ch
+    ctx.log("trace: %d per-root traces classified by bin/trc" % len(lines))
     # ---- improve_root steps: Newton disc at exit (site I) -> next observation of that root
     ilines = []; iown = []
     for rec in todo:
@@ -386,7 +419,22 @@ def trace_tie(ctx, tbinary, jobs, env, stats, cap):
         rs = [o["r"] for tr in rec["traces"] for o in tr if o.get("cls") in ("1", "F") and o["r"] is not None and o["r"] > 0]
         return (e2e.min_radius_log2([(0, 0, x) for x in rs], floor=-10 ** 9) - 16) if rs else -60
     for rec in todo: rec["target_override"] = tgt(rec)
-    groups = e2e.certify_records_grouped(ctx, todo, max_bits=cap, max_degree=ctx.pick(20, 40), timeout=ctx.pick(45, 240))
+    ctx.log("trace: improve steps checked")
+    # the certified oracle of the same exact equation is shared with the main family when there is one (its answers are sound
+    # at any resolution; a coarser resolution only leaves more answers undecided)
+    fresh = []; by_orc = collections.OrderedDict()
+    for rec in todo:
+        try: poly = e2e.full_poly_of_result(rec["res"])
+        except Exception: poly = None
+        o = shared.get(tuple(poly)) if poly is not None else None
+        if o is not None:
+            rec["poly"] = poly; rec["oracle"] = o; by_orc.setdefault(id(o), []).append(rec); stats["trace:oracle-shared-with-main-family"] += 1
+        elif poly is not None and tuple(poly) in tried:
+            rec["why"] = "uncertified(main family)"        # the certificate of this equation was not obtained in this run: not tried again
+        else: fresh.append(rec)
+    own = e2e.certify_records_grouped(ctx, fresh, max_bits=cap, max_degree=ctx.pick(20, 40), timeout=ctx.pick(45, 240)) if fresh else []
+    groups = list(by_orc.values()) + own
+    ctx.log("trace: certificates checked (%d shared, %d own)" % (len(by_orc), len(own)))
     def one(g):
         st = collections.Counter(); viol = []; ev = 0; sm = []
         for rec in g:
@@ -396,16 +444,22 @@ def trace_tie(ctx, tbinary, jobs, env, stats, cap):
                 for j, o in enumerate(tr):
                     st["trace:class:%s:%s" % ({"N": "no-claim", "1": "first-claim(fresh)", "S": "same-disc", "E": "same-centre-larger-radius",
                                                 "M": "move-and-enlarge", "F": "fresh-radius"}[o["cls"]], SITE.get(o["site"], o["site"]) + ("-entry" if o["k"] == "e" else "-exit" if o["k"] == "x" else ""))] += 1
+            last_fresh = {i: max([j for j, o in enumerate(tr) if o["cls"] in ("1", "F")] or [-1]) for i, tr in enumerate(rec["traces"])}
             uniq = {}
             for i, j, o in obl: uniq.setdefault((o["c"], o["r"]), []).append((i, j, o))
             keys = list(uniq)
-            try: ans = e2e.count_discs_bounds(orc, [(k[0][0], k[0][1], k[1]) for k in keys]) if keys else []
+            try: ans = obligation_bounds(orc, [(k[0][0], k[0][1], k[1]) for k in keys]) if keys else []
             except Exception as e:
                 st["trace:oracle-error"] += 1; continue
             for k, (lo, hi) in zip(keys, ans):
                 for i, j, o in uniq[k]:
                     ev += 1
                     if lo >= 1: st["trace:obligation:contains-root:" + o["ar"]] += 1
+                    elif hi == 0 and not (j == last_fresh[i] or o["site"] in ("W", "I")):
+                        # a radius computed by the secular iteration / a Jacobi-Aberth packet of the secular algorithm refers to the
+                        # REGENERATED secular equation (floating-point coefficients), not to the input: such a disc may miss the
+                        # roots of the input; it is superseded by a later fresh radius (validated in its turn) before anything is returned
+                        st["trace:obligation:refuted-but-superseded(%s, not the disc the returned one derives from)" % SITE.get(o["site"])] += 1
                     elif hi == 0:
                         st["VIOLATION:trace:obligation"] += 1
                         viol.append(("correspondence:newton-contract:%s:%s" % (cc, c["name"]),
@@ -428,7 +482,7 @@ def trace_tie(ctx, tbinary, jobs, env, stats, cap):
             if len(samples) < 4: samples.append(x)
     for rec in todo:
         if rec["oracle"] is None: stats["trace:not-judged:" + (rec["why"].split(":")[0] or "?")] += 1
-    for g in groups:
+    for g in own:
         try: g[0]["oracle"].close()
         except Exception: pass
     stats["trace:solves"] += len(todo)
@@ -626,18 +680,20 @@ def run(ctx):
         stats.update(st); nontrivial |= nt; evaluations += ev
         for s in sm:
             if len(samples) < 8 and (len(samples) < 4 or s["class"] not in [x["class"] for x in samples]): samples.append(s)
-    for g in groups:
-        try: g[0]["oracle"].close()
-        except Exception: pass
     ctx.log("judged")
     # ---- event traces: the hypothesis of the skeleton theorems checked per event on a hooked build
     tev, tsamples = 0, []
     if (not ctx.replay or json.load(open(ctx.replay)).get("trace")) and only in ("", "trace"):
         tbinary = ctx.compile_harness(["c01_trace.c"], "c01_trace", mode="san", extra_ldflags=" ".join("-Wl,--wrap=" + f for f in TRACE_WRAP))
         tjobs = select_trace_jobs(ctx, co, ctx.pick(30, 200)) if not ctx.replay else co
-        tev, tsamples = trace_tie(ctx, tbinary, tjobs, env, stats, cap)
+        shared = {g[0]["group"]: g[0]["oracle"] for g in groups}
+        tried = set(r["group"] for r in recs if r.get("group") is not None)
+        tev, tsamples = trace_tie(ctx, tbinary, tjobs, env, stats, cap, shared, tried)
         evaluations += tev
         ctx.log("event traces: %d solves, %d evaluations" % (len(tjobs), tev))
+    for g in groups:
+        try: g[0]["oracle"].close()
+        except Exception: pass
     judged = [r for r in lists if r["oracle"] is not None]
     detail = {k: v for k, v in stats.items() if k.startswith(("undecided-case:", "skipped-case:"))}
     for k in detail: del stats[k]
@@ -660,13 +716,16 @@ def run(ctx):
            "degree_histogram": dict(collections.Counter(r["res"].parsed_degree for r in lists)),
            "exact_floating_point_inputs": nfloat, "undecided_and_skipped_cases": sorted(detail)[:60], "slow_solves": slow,
            "slow_certificates": sorted(set((r.get("cert_s", 0), r["case"]["name"], len(r["poly"]) - 1, r.get("target")) for r in recs if r.get("cert_s", 0) > 10 and r["poly"]), reverse=True)[:12], "samples": samples,
-           "trusted_base": ["Coq 8.16.1 kernel; Properties_C01 / Properties_ORACLE close under the global context (axiom-free, see axioms_used)",
+           "trusted_base": ["Coq 8.16.1 kernel; Properties_ORACLE and the MathComp-side theorems of Properties_C01 close under the global context; C01_trace_sound / C01_trace_incl_sound / C01_improve_step_sound are over Coq's real numbers (ClassicalDedekindReals.sig_forall_dec, FunctionalExtensionality.functional_extensionality_dep: see axioms_used)",
+                            "event traces: harness/c01_trace.c (link-time -Wl,--wrap of mps_polynomial_{f,d,m}newton, mps_secular_{f,d,m}newton, mps_improve, mps_validate_inclusions, mps_{f,d,m}aberth_packet on the normal sanitizer build; exact hex export; one worker thread); extracted TraceDefs.walk / obligations / improve_step_ok (bin/trc, ocaml/trc_driver.ml, zarith for text I/O only); checks/C01.py turns RE lines into observation lists (numbers over 12000 bits or radius >= 2^1000 count as 'no claim') and picks the verdict (a refuted obligation is a violation when the returned disc derives from it or when it comes from a classic worker / improve_root; refuted radii of the secular iteration that are superseded are counted: they refer to the regenerated secular equation)",
+                            "reuse family: harness/c01_reuse.c (several solves on one context; export helpers of vf_solve.c)",
                             "root oracle bin/cert: extracted (ExtrOcamlBasic, ExtrOcamlNativeString) cert_check + queries, ocaml/cert_driver.ml line protocol, lib/oracle.py client; hints (mpmath/sympy) are untrusted and checked",
                             "harness/vf_solve.c exact export (hex mpf / rdpe / double) and lib/solve.py parser; lib/e2e.py inner/outer disc rounding (exact Fractions)",
                             "secular / Chebyshev inputs: converted to monomial form by the extracted Transform functions (ORACLE_secular_to_monomial_roots, ORACLE_chebyshev_to_monomial_sound)",
                             "skeleton model coq/Skel: numerics abstracted into contracts (radius >= n|p/p'| at the point of evaluation); correspondence of the skeleton to the C code is by reading, the run-time tie is the oracle validation of every solve"]}
     return ctx.finish("translation_validation", cov,
                       ["convergence/termination of the iteration, GMP arithmetic and the rounding-error terms inside the radius formulae are not proved; they are validated per run by the oracle",
+                       "event traces see the writes between two Newton calls through their net effect only (exit disc -> next entry disc): about half of them are exact move-and-enlarge, the rest count as fresh radii and are validated by the oracle; improve_root adds its terms in rounded DPE arithmetic, so about half of its steps are move-and-enlarge only up to 2^-40 of the radius (these are validated as fresh obligations)",
                        "component-count half of Gerschgorin's theorem (cluster of k discs holds k roots) is not proved: C01_isolated_exactly_one covers the all-disjoint configuration, the mixed one is stated as _partial",
                        "exact certification is limited to degree <= %d and radii >= 2^-%d in this tier; larger cases are counted as not judged" % (ctx.pick(20, 40), ctx.pick(400, 3400)),
                        "one worker thread (-j 1) so that runs are reproducible; solves that end in an error or crash are left to C03",
